@@ -199,6 +199,16 @@ func verifC09(t *testing.T, r *vfh.Rand, out *vfh.Out) {
 		s = append(s, lstRead{0, 0, 255, 1})
 		runListen(t, out, s)
 	}
+	// … all from ONE source (a host with a broken stack, or someone spoofing it): 1..40 invalid
+	// messages, then a valid one from the same source and one from another
+	for _, n := range []int{1, 5, 9, 10, 11, 12, 20, 40} {
+		var s []lstRead
+		for i := 0; i < n; i++ {
+			s = append(s, lstRead{0, i % 2, vfh.Pick(r, []int{0, 1, 64, 254}), 1})
+		}
+		s = append(s, lstRead{0, 0, 255, 1}, lstRead{0, 1, 255, 2})
+		runListen(t, out, s)
+	}
 	// random scripts with timeouts and errors mixed in
 	n := vfh.N(1500, 30000)
 	for i := 0; i < n; i++ {
